@@ -258,6 +258,7 @@ void sim_log(uint64_t kind, uint64_t a, uint64_t b); // append to the run's even
 void task_spawn(Task &parent, int child);           // C13
 void task_join(Task &self, int child);              // C13
 int lowest_runnable(int except);
+void sim_switch_to(Task &t, int target);           // workload-driven hand-off (not recorded in the schedule)
 
 // arenas
 enum { ARENA_SIZE = 48 * 1024, ARENA_TAIL = 64, ARENA_LO = 4, ARENA_HI = ARENA_SIZE - 4 }; // a task owns offsets [ARENA_LO, ARENA_HI)
